@@ -367,6 +367,11 @@ def r15_13_no_coarser_type_on_the_way(ctx: Ctx) -> RuleResult:
             for n in own_nodes(f.node):
                 if isinstance(n, ast.Call) and unparse(n.func) in table:
                     bad = n
+                if cname == "Instant" and isinstance(n, ast.Call) and isinstance(n.func, ast.Attribute) and n.func.attr == "to_timedelta":
+                    # Duration.to_timedelta drops the sub-microsecond part TOWARDS ZERO (right for an amount of time); an instant before
+                    # 1970 needs the floor: 1 ns before the epoch is 1969-12-31T23:59:59.999999, not 1970-01-01T00:00:00
+                    bad = n
+                    table = dict(table, **{unparse(n.func): "Duration.to_timedelta truncates towards zero; a point in time before the epoch must be floored (days and microseconds from the floor view)"})
             if bad is None:
                 rr.ok({"bridge": f.qual})
             else:
